@@ -11,10 +11,10 @@ RULE = ("sequences of registrations and logins (several users, re-registration, 
 ASSUMPTIONS = ["'not a field' is proved for the hash-derived fields up to explicit collision events; unaligned verbatim appearance is explored"]
 
 
-def stable(ctx, pw):
+def stable(ctx, pw, cred=b"alice"):
     ctx.nontrivial = True
     L = ctx.L
-    f = honest_flow(ctx, pw, b"alice", b"ctx0", None, None, count=True)
+    f = honest_flow(ctx, pw, cred, b"ctx0", None, None, count=True)
     ek = f.export_reg
     ctx.expect(f.ok and f.export_login == ek, "first login returns the registration's export key")
     # messages and the password file (the server's pending-login state legitimately holds the session key)
@@ -26,16 +26,34 @@ def stable(ctx, pw):
     for k in range(4):
         g = Flow(); g.__dict__.update(f.__dict__)
         c = [None, b"", b"ctx-%d" % k, b"x" * 300][k]
-        login(ctx, g, pw, b"alice", c, c, None, None, None, None, "~", f.setup, f.file, rejections=k % 2)
+        login(ctx, g, pw, cred, c, c, None, None, None, None, "~", f.setup, f.file, rejections=k % 2)
         ctx.expect(g.ok and g.export_login == ek, "login %d (context %r) returns the same export key" % (k + 2, c))
         if g.ok:
             public += [g.ke1, g.ke2, g.ke3]
             secrets.append(("session key", g.session_client)); sessions.append(g.session_client)
     ctx.expect(len(set(sessions)) == len(sessions), "session keys differ from login to login")
-    others = {"re-registration (same password)": honest_flow(ctx, pw, b"alice", setup=f.setup, registration_only=True, count=True),
-              "another password": honest_flow(ctx, pw + b"!", b"alice", setup=f.setup, registration_only=True, count=True),
+    others = {"re-registration (same password)": honest_flow(ctx, pw, cred, setup=f.setup, registration_only=True, count=True),
               "another user": honest_flow(ctx, pw, b"bob", setup=f.setup, registration_only=True, count=True),
-              "another server": honest_flow(ctx, pw, b"alice", registration_only=True, count=True)}
+              "another user (long identifier, common prefix)": honest_flow(ctx, pw, cred[:-1] + b"X", setup=f.setup, registration_only=True, count=True),
+              "another server": honest_flow(ctx, pw, cred, registration_only=True, count=True)}
+    # the same envelope nonce (same registration tape) isolates what the export key depends on besides the nonce
+    def reg_with_tape(p_, c_, tape_reg, tape_fin):
+        r = ctx.call("reg_start", tape_reg, p_)
+        if not r.ok: return None
+        rr = ctx.call("srv_reg_start", f.setup, r.b(1), c_)
+        if not rr.ok: return None
+        r2 = ctx.call("reg_finish", r.b(0), tape_fin, p_, rr.b(0), None, None, "~")
+        return r2.b(1) if r2.ok else None
+    t_reg, t_fin = ctx.btape(), ctx.tape(48)
+    base_ek = reg_with_tape(pw, cred, t_reg, t_fin)
+    ctx.expect(base_ek is not None, "registration on a fixed tape succeeds")
+    for p2 in related_passwords(pw):
+        e2 = reg_with_tape(p2, cred, t_reg, t_fin)
+        ctx.expect(e2 is None or e2 != base_ek, "another password (%r..., %d bytes) yields a different export key even on the same tape" % (p2[:8], len(p2)))
+    for c2 in (cred + b"x", cred[:-1], cred[:-1] + b"Y", b"", cred[:57], cred[:249], cred[:255]):
+        if c2 != cred:
+            e2 = reg_with_tape(pw, c2, t_reg, t_fin)
+            ctx.expect(e2 is None or e2 != base_ek, "another credential identifier (%d bytes) yields a different export key even on the same tape" % len(c2))
     for what, g in others.items():
         ctx.expect(g.ok and g.export_reg != ek, "%s yields a different export key" % what)
         public += [g.upload, g.reg_response]
@@ -51,8 +69,9 @@ def stable(ctx, pw):
 
 def cases(tier, seed):
     out = []
-    pws = [b"a sixteen byte pw", b"short", b"P" * 64, b""]
+    pws = [(b"a sixteen byte pw", b"alice"), (b"A long pass-phrase, longer than any hash block: " + b"correct horse battery staple " * 6, b"user-record/" * 30 + b"alice"),
+           (b"short", b"a" * 255), (b"P" * 64, b""), (b"", b"alice")]
     for si, s in enumerate(suites_for(tier, seed)):
-        for k, pw in enumerate(pws if tier == "thorough" else pws[:2]):
-            out.append(dict(script=stable, suite=s, seed=seed * 10000 + si * 10 + k, mode="pattern", params=dict(pw=pw)))
+        for k, (pw, cred) in enumerate(pws if tier == "thorough" else pws[:2]):
+            out.append(dict(script=stable, suite=s, seed=seed * 10000 + si * 10 + k, mode="pattern", params=dict(pw=pw, cred=cred)))
     return out
